@@ -228,7 +228,7 @@ partial def loop (st : IO.Ref (Std.HashMap String Nat)) (h : IO.FS.Stream) (out 
     loop st h out b
   | ["gint", v] =>
     match v.toInt? with
-    | some i => out.putStrLn s!"#gint {v} {(gfmtInt i).render}"
+    | some i => out.putStrLn s!"#gint {v} {(gfmtInt i).render} {(Dbl.ofInt (strtodInt (gfmtInt i))).hex}"
     | none => out.putStrLn "#gint bad-op"
     loop st h out b
   | [] => loop st h out b
